@@ -12,7 +12,7 @@ for sid in ids:
     d = root / sid
     meta = json.loads((d / "meta.json").read_text())
     prop = meta["property"]
-    r = subprocess.run(["/verif/tools/try_patch.sh", str(d / "patch.diff"), prop], capture_output=True, text=True, env=dict(os.environ, TIER=tier, LINES_MAX="400"))
+    r = subprocess.run(["/verif/tools/try_patch.sh", str(d / "patch.diff"), prop], capture_output=True, text=True, env=dict(os.environ, TIER=tier, LINES_MAX="4000"))
     out = r.stdout + r.stderr
     sigs = sorted(set(m.group(1).strip() for m in re.finditer(r"^VIOLATION property=\S+ replay=\S+ :: (.*?) :: ", out, re.M)))
     applies = "PATCH DOES NOT APPLY" not in out
